@@ -868,8 +868,26 @@ void ObjsEngine::op_svd(const Step& st)
   int n = 1 + (int)(st.arg(1) % 5), m = n + (int)(st.arg(2) % 3), rank = 1 + (int)(st.arg(3) % n);
   if (st.arg(3) % 3 != 0) rank = n;
   Rng g((uint64_t)st.arg(4) * 31 + 9);
+  // one decomposition in three takes ANY tiny small-integer matrix (up to 3 x 3, entries -1..2): zero rows and columns
+  // inside the matrix, repeated rows, exact rank deficiency of every kind; its rank is computed exactly (Bareiss)
+  bool tiny = (st.arg(3) / 3) % 3 == 1;
+  if (tiny) { n = 1 + (int)(st.arg(1) % 3); m = n + (int)(st.arg(2) % (4 - n)); }
   Model A; A.shape(T_MAT, m, n, 0);
-  {
+  if (tiny) {
+    std::vector<long long> Z((size_t)m * n);
+    for (int i = 0; i < m; i++) for (int k = 0; k < n; k++) { long long v = (long long)g.range(-1, 2); Z[(size_t)i * n + k] = v; A.at(i + 1, k + 1) = (double)v; }
+    // fraction-free elimination: exact rank of an integer matrix
+    rank = 0; long long prev = 1; std::vector<long long> B = Z; int row = 0;
+    for (int col = 0; col < n && row < m; col++) {
+      int piv = -1; for (int i = row; i < m; i++) if (B[(size_t)i * n + col] != 0) { piv = i; break; }
+      if (piv < 0) continue;
+      if (piv != row) for (int k = 0; k < n; k++) std::swap(B[(size_t)piv * n + k], B[(size_t)row * n + k]);
+      for (int i = row + 1; i < m; i++) for (int k = col + 1; k < n; k++)
+        B[(size_t)i * n + k] = (B[(size_t)i * n + k] * B[(size_t)row * n + col] - B[(size_t)i * n + col] * B[(size_t)row * n + k]) / prev;
+      for (int i = row + 1; i < m; i++) B[(size_t)i * n + col] = 0;
+      prev = B[(size_t)row * n + col]; row++; rank++;
+    }
+  } else {
     // P is unit lower trapezoidal (full column rank), Q unit upper trapezoidal (full row rank): rank(P*Q) is exactly `rank`
     std::vector<double> P((size_t)m * rank), Q((size_t)rank * n);
     for (int i = 0; i < m; i++) for (int q = 0; q < rank; q++) P[(size_t)i * rank + q] = i == q ? 1.0 : i > q ? (double)g.range(-2, 2) : 0.0;
@@ -879,9 +897,10 @@ void ObjsEngine::op_svd(const Step& st)
   Slot& s = S[j]; make(s, T_MAT, m, n, 0); s.m = A; s.m.t = T_MAT;
   for (int i = 1; i <= m; i++) for (int k = 1; k <= n; k++) rset(s, i, k, A.at(i, k));
   double amax = 0; for (double v : A.d) amax = std::max(amax, std::fabs(v));
-  ST->state("triples", fmt("svd/Mat/%s", rank == n ? "full-rank" : "rank-deficient"));
+  ST->state("triples", fmt("svd/Mat/%s%s", tiny ? "tiny-integer-" : "", rank == n ? "full-rank" : rank == 0 ? "zero" : "rank-deficient"));
   GNU_gama::SVD<double, int, matvec> svd(*s.mat);
-  svd.decompose();
+  // every real matrix has a singular value decomposition: an exception here ("no convergence") is a wrong answer
+  try { svd.decompose(); } catch (const matvec& e) { throw Fail{"C15:algebra:SVD", fmt("decompose() raised exception %d for a %d x %d matrix of rank %d", e.error(), m, n, rank)}; }
   const RMat& U = svd.SVD_U(); const RVec& W = svd.SVD_W(); const RMat& V = svd.SVD_V();
   if (U.rows() != m || U.cols() != n || W.dim() != n || V.rows() != n || V.cols() != n)
     throw Fail{"C15:algebra:SVD", "factor dimensions are wrong"};
@@ -900,7 +919,7 @@ void ObjsEngine::op_svd(const Step& st)
   }
   if (svd.nullity() != n - rank) throw Fail{"C15:algebra:SVD", fmt("nullity %d, planted rank deficiency %d", svd.nullity(), n - rank)};
   // Moore-Penrose conditions for pinv(A)
-  RMat Pm = GNU_gama::pinv(*s.mat);
+  RMat Pm; try { Pm = GNU_gama::pinv(*s.mat); } catch (const matvec& e) { throw Fail{"C15:algebra:pinv", fmt("pinv() raised exception %d for a %d x %d matrix of rank %d", e.error(), m, n, rank)}; }
   if (Pm.rows() != n || Pm.cols() != m) throw Fail{"C15:algebra:pinv", "dimensions of the pseudo-inverse are wrong"};
   Model P; P.shape(T_MAT, n, m, 0); for (int i = 1; i <= n; i++) for (int k = 1; k <= m; k++) P.at(i, k) = Pm(i, k);
   Model AP, PA, APA, PAP; double sc, pmax = 0; for (double v : P.d) pmax = std::max(pmax, std::fabs(v));
